@@ -101,6 +101,8 @@ def design_expectation(tr):
     if tr['endpoint'] != 'provider' or tr['nested'] or tr['method'] != 'POST':
         return None
     m = tr['mutation']
+    if (m or '').startswith('mismatch:'):
+        return 400, 1
     if m in READ_FAILS:
         return 400, 3
     if m in PARSE_RAISES:
@@ -224,6 +226,12 @@ def world_oracle(tr):
             return 'malformed-response', f'POST answered with {tr["body_class"]}'
         if tr['status'] >= 400 and not (tr['body_class'] == 'fault' and tr['wellformed']):
             return 'malformed-fault', f'status {tr["status"]} without a well-formed SOAP fault ({tr["body_class"]})'
+    if (tr['mutation'] or '').startswith('mismatch:') and tr['endpoint'] == 'provider' and not tr['nested']:
+        # action of one operation with the body element of another: no handler is registered for that pair
+        if tr['status'] < 400 or (f or {}).get('dispatch') == [0, 0]:
+            return 'mismatch-executed', (f'request with the action of one operation and the body element of another ({tr["mutation"][9:]}), sent after '
+                                         f'a valid request with the same action, was executed: status {tr["status"]}, {tr["body_class"]}, state changed: '
+                                         f'{tr.get("state_changed")}')
     if tr.get('state_changed') and tr['status'] >= 400:
         return 'state-changed', f'request rejected with {tr["status"]} but {tr["state_changed"]} changed'
     return None
